@@ -26,6 +26,8 @@ TStart == /\ Ev("Start") /\ ~exited
           /\ LET t == Trace[l].t IN
                /\ t \in DOMAIN deps /\ t \notin started
                /\ deps[t] \subseteq ok
+               \* "finished building": the dependency's terminal report has been made, not merely its command ended
+               /\ \A d \in deps[t] : Contains(reported, d)
                /\ started' = started \cup {t}
           /\ UNCHANGED <<deps, req, expectOK, ended, ok, reported, exited>>
 TEnd == /\ Ev("End") /\ ~exited
